@@ -1194,7 +1194,13 @@ func (r condition) string() string {
 	// begin default presentation
 	// handler ...
 	var raw string
-	if meth := getStringer(r.ex); meth != nil {
+	if Xs, ok := stackTypeAliasConverter(r.ex); ok {
+		// Stack, or type alias of Stack
+		raw = Xs.String()
+	} else if Xc, ok := conditionTypeAliasConverter(r.ex); ok {
+		// Condition, or type alias of Condition
+		raw = Xc.String()
+	} else if meth := getStringer(r.ex); meth != nil {
 		raw = meth()
 	} else {
 		raw = primitiveStringer(r.ex)
